@@ -74,7 +74,7 @@ def work(item):
         # which slots are already missing when the construct stands alone
         alone = set()
         d1 = []
-        for name, slots, _ in terms.CONSTRUCTS:
+        for name, slots, _ in terms.CONSTRUCTS + terms.EXTRA_CONSTRUCTS:
             f = terms.Filler(mode, mark)
             d1.append((name, terms.build((name, None, None), f), list(f.planted)))
         _, r1 = mc.run_cases(setup, [[["mathml", terms.doc(t)], ["braille", ""]] for _, t, _ in d1])
@@ -190,7 +190,7 @@ def work_digits(item):
     lang, mark, table, dec = CODES[code]
     setup = [["rules_dir", mcx.RULES], ["pref", "TTS", "none"], ["pref", "Language", lang], ["pref", "BrailleCode", code], ["pref", "BrailleNavHighlight", "Off"]] + prefs
     built = []
-    for name, slots, _ in terms.CONSTRUCTS:
+    for name, slots, _ in terms.CONSTRUCTS + terms.EXTRA_CONSTRUCTS:
         probe = terms.Filler("int")
         terms.build((name, None, None), probe)
         for k in range(len(probe.planted)):
